@@ -52,6 +52,7 @@ def handleIO (op : String) (args impl : List String) : Verdict :=
     | some k, some total =>
       compare (if k < total then "err" else "ok-complete") (" ".intercalate impl) fun _ => false
     | _, _ => .bad "io.wfault"
+  | "io.wsize", _ => compare "linear" (" ".intercalate impl) fun _ => false
   | "io.file", [what, ext] =>
     let expected :=
       match what with
@@ -60,6 +61,7 @@ def handleIO (op : String) (args impl : List String) : Verdict :=
       | "write-nodir" => "err"
       | "write-full" => if impl = ["no-dev-full"] then "no-dev-full" else "err"   -- a failing device: the error is reported
       | "write-ok" => "ok"
+      | "write-over" => "ok"     -- an existing longer destination is replaced, not overwritten in place
       | "write-empty" => if (Dispatch.writeCodec (Dispatch.lowerExt ext)).isSome then "no-subtitles" else "invalid-extension"
       | "write-ext" => if (Dispatch.writeCodec (Dispatch.lowerExt ext)).isSome then "dispatched" else "invalid-extension"
       | "open-ext" => if (Dispatch.openCodec (Dispatch.lowerExt ext)).isSome then "dispatched" else "invalid-extension"
